@@ -14,7 +14,7 @@ import (
 // ---------------------------------------------------------------------------
 
 func c02TxnCfg() TxnCfg {
-	return TxnCfg{Prop: "C02", MaxSteps: 10, Rollback: true, FailInsert: true, Deletes: true, Inserts: true, Merges: true, OwnUpdates: true, KeyOps: true,
+	return TxnCfg{Prop: "C02", MaxSteps: 10, Peeks: true, Rollback: true, FailInsert: true, Deletes: true, Inserts: true, Merges: true, OwnUpdates: true, KeyOps: true,
 		NoStoreOnDel: KFActive("f11-store-and-delete-same-txn"), NoOpAfterLenMerge: KFActive("f15-difflen-merge-reorder")}
 }
 
